@@ -100,7 +100,7 @@ def run(prop, tier, seed, out):
             rep = json.load(open(rp))
             log("  conc-record %.1fs histories=%d ops=%d races=%d" % (time.time() - t0, rep["histories"], rep["ops"], len(races)))
             for pr in rep["problems"]:
-                out.violation(pr["what"], pr)
+                out.violation(pr["what"], pr)   # C04 covers the atomic-swap clause of C07 as well ("zero or one time ... exactly once")
             for blk in races:
                 c = classify(blk)
                 if c == "harness":
